@@ -1006,3 +1006,49 @@ mod tests {
         Ok(())
     }
 }
+
+/// Read-only accessors for external verification harnesses.
+#[cfg(feature = "__verif")]
+impl TimeZone {
+    /// Dump the zone as plain data
+    pub(crate) fn verif_dump(&self) -> crate::offset::local::verif::ZoneDump {
+        crate::offset::local::verif::ZoneDump {
+            transitions: self
+                .transitions
+                .iter()
+                .map(|t| (t.unix_leap_time, t.local_time_type_index))
+                .collect(),
+            types: self.local_time_types.iter().map(LocalTimeType::verif_dump).collect(),
+            leap_seconds: self
+                .leap_seconds
+                .iter()
+                .map(|l| (l.unix_leap_time, l.correction))
+                .collect(),
+            rule: self.extra_rule.as_ref().map(TransitionRule::verif_dump),
+        }
+    }
+
+    /// Build a zone from a POSIX TZ rule string, bypassing the zoneinfo directory lookup
+    /// (the tail of `from_posix_tz`).
+    pub(crate) fn verif_from_tz_string(tz_string: &str) -> Result<Self, Error> {
+        let tz_string = tz_string.trim_matches(|c: char| c.is_ascii_whitespace());
+        let rule = TransitionRule::from_tz_string(tz_string.as_bytes(), false)?;
+        Self::new(
+            vec![],
+            match rule {
+                TransitionRule::Fixed(local_time_type) => vec![local_time_type],
+                TransitionRule::Alternate(AlternateTime { std, dst, .. }) => vec![std, dst],
+            },
+            vec![],
+            Some(rule),
+        )
+    }
+}
+
+#[cfg(feature = "__verif")]
+impl LocalTimeType {
+    /// Dump the local time type as plain data
+    pub(super) fn verif_dump(&self) -> crate::offset::local::verif::TypeDump {
+        (self.ut_offset, self.is_dst, self.name.as_ref().map(|n| n.as_bytes().to_vec()))
+    }
+}
